@@ -733,7 +733,7 @@ Section Progress.
     assert (I1 : W s1 /\ (rexn (re s1) = None -> Fb s1 /\ Pt s1 /\ (buf' <> [] -> Ph s1 /\ Pg s1)) /\
                  re s1 = r1 /\ rexn r1 = rexn (re s)).
     { subst s1 r1. clear Ex. bust s. cbn in Eb. subst bf. unfold set_re. cbn.
-      split; [unfold W in *; cbn in *; apply Wr_take; assumption|]. split; [|split; reflexivity].
+      split; [unfold W in *; cbn in *; eapply Wr_take; eassumption|]. split; [|split; reflexivity].
       intro X. destruct (Hf X) as (Fbs & Phs & Pgs & Pts). unfold Fb, Ph, Pg, Pt, nonempty, shape in *. cbn in *. fin2. }
     destruct I1 as (Hw1 & Hf1 & Hre & Hrx).
     match goal with |- ((if ?x then _ else _), _) = _ -> _ => destruct x eqn:Ec end; intros [= <- <-].
@@ -750,5 +750,148 @@ Section Progress.
           cbn in Ec. discriminate Ec.
         - unfold dg_resume_size in Ec. rewrite W1 in Ec. destruct (0 <? low (re s)) eqn:E0; [cbn in Ec; discriminate Ec|lia]. }
       destruct (C Hne) as (C1 & C2). auto.
+  Qed.
+
+  Lemma take_k_F f k : forall s acc s' dd, Inv s -> take_k H hnew hstep havail heof hflush f k s acc = (s', dd) -> Inv s'.
+  Proof.
+    induction k as [|k IH]; intros s acc s' dd Hi; cbn [take_k]; [intros [= <- <-]; exact Hi|].
+    destruct (rd_take H hnew hstep havail heof hflush f s None) as [s1 d1] eqn:Et. intros Hk.
+    eapply IH; [|exact Hk]. eapply rd_take_F; eauto.
+  Qed.
+
+  Lemma read_upto_F f g : forall s n acc s' dd, Inv s -> read_upto H hnew hstep havail heof hflush f g s n acc = (s', dd) -> Inv s'.
+  Proof.
+    induction g as [|g IH]; intros s n acc s' dd Hi; cbn [read_upto]; [intros [= <- <-]; exact Hi|].
+    destruct (isnil (buf (re s))); [intros [= <- <-]; exact Hi|].
+    destruct (rd_take H hnew hstep havail heof hflush f s (Some n)) as [s1 d1] eqn:Et.
+    assert (I1 : Inv s1) by (eapply rd_take_F; eauto).
+    destruct (n - lenN d1 =? 0); [intros [= <- <-]; exact I1|]. intros Hk. eapply IH; eauto.
+  Qed.
+
+  Lemma set_chunk_F s n : Inv s -> Inv (set_chunk_size H s n).
+  Proof.
+    intros Hi. unfold set_chunk_size. destruct (dg_raises n (low (re s))) eqn:Er; [|exact Hi].
+    unfold dg_raises, dg_raise_low in *. destruct Hi as (Hw & Hf). bust s. unfold Inv, W, Wr, Fb, Ph, Pg, Pt, nonempty, shape in *. unfold set_re. cbn in *.
+    split; [repeat split; try tauto; lia|]. exact Hf.
+  Qed.
+
+  Lemma set_wt_F s w0 : Inv s -> Inv (set_wt H s w0).
+  Proof. intros Hi. bust s. unfold Inv, W, Wr, Fb, Ph, Pg, Pt, nonempty, shape in *. unfold set_wt, set_re. cbn in *. exact Hi. Qed.
+
+  Lemma op_body_F f s o s' r : Inv s -> op_body H hnew hstep havail heof hflush f s o = (s', r) -> Inv s'.
+  Proof.
+    intros Hi. unfold op_body. cbv zeta.
+    destruct (isnil (buf (re s)) && negb (reof (re s))).
+    - destruct (rexn (re s)); [|destruct (connected (pr s))]; intros [= <- <-]; apply set_wt_F; exact Hi.
+    - pose proof (set_wt_F s WNone Hi) as H1. destruct o as [|n|n].
+      + destruct (take_k H hnew hstep havail heof hflush f (length (buf (re s))) (set_wt H s WNone) []) as [s1 dd] eqn:Et.
+        intros [= <- <-]. eapply take_k_F; eauto.
+      + destruct (read_upto H hnew hstep havail heof hflush f f (set_wt H s WNone) n []) as [s1 [dd|]] eqn:Et;
+          intros [= <- <-]; eapply read_upto_F; eauto.
+      + intros [= <- <-]. exact H1.
+  Qed.
+
+  Lemma op_start_F f s o s' r : Inv s -> op_start H hnew hstep havail heof hflush f s o = (s', r) -> Inv s'.
+  Proof.
+    intros Hi. unfold op_start. destruct o as [|n|n].
+    - destruct (rexn (re s)); [intros [= <- <-]; exact Hi|]. apply op_body_F; exact Hi.
+    - destruct (rexn (re s)); [intros [= <- <-]; exact Hi|]. destruct (n =? 0); [intros [= <- <-]; exact Hi|].
+      apply op_body_F. apply set_chunk_F; exact Hi.
+    - intros [= <- <-]. apply set_chunk_F; exact Hi.
+  Qed.
+
+  Lemma op_wake_F f s o s' r : Inv s -> op_wake H hnew hstep havail heof hflush f s o = (s', r) -> Inv s'.
+  Proof.
+    intros Hi. unfold op_wake. destruct (wt (re s)).
+    - intros [= <- <-]; exact Hi.
+    - intros [= <- <-]; exact Hi.
+    - destruct (op_body H hnew hstep havail heof hflush f s o) as [s1 r1] eqn:Eo. intros [= <- <-]. eapply op_body_F; eauto.
+    - intros [= <- <-]. apply set_wt_F; exact Hi.
+  Qed.
+
+  Lemma poll_F f (y y' : sys) o : Inv (core y) -> poll H hnew hstep havail heof hflush f y = (y', o) -> Inv (core y').
+  Proof.
+    intros Hi. unfold poll. destruct (pend y) as [op0|]; [|intros [= <- <-]; exact Hi].
+    destruct (op_wake H hnew hstep havail heof hflush f (core y) op0) as [s1 [r|]] eqn:Ew;
+      pose proof (op_wake_F _ _ _ _ _ Hi Ew) as I1; [destruct r|]; intros [= <- <-]; exact I1.
+  Qed.
+
+  Lemma settle_F f (y : sys) (o : obs) (y' : sys) (o' : obs) :
+    Inv (core y) -> settle H hnew hstep havail heof hflush f (y, o) = (y', o') -> Inv (core y').
+  Proof.
+    intros Hi. unfold settle. destruct (closing (pr (core y))) eqn:Ec; [|intros [= <- <-]; exact Hi].
+    destruct (poll H hnew hstep havail heof hflush f (mkSys H (connection_lost H hnew hstep havail heof hflush f (core y)) (pend y))) as [y1 o1] eqn:Ep.
+    intros [= <- _]. eapply poll_F in Ep; [exact Ep|]. cbn [core]. apply connection_lost_F; exact Hi.
+  Qed.
+
+  Lemma parser_feed_Inv f s data : Inv s -> Inv (parser_feed H hnew hstep havail heof hflush f s data).
+  Proof.
+    intros (Hw & Hf). destruct (parser_feed_F f s data Hw (fun X => proj1 (Hf X))) as (Hw' & Hf' & Hx & _). cbv zeta in *.
+    split; [exact Hw'|]. intro X. destruct (Hf' X) as (A & B & C & D). destruct (Hf (Hx X)) as (_ & _ & G & T). auto.
+  Qed.
+
+  Lemma step_F f (y y' : sys) ev o : Inv (core y) -> step H hnew hstep havail heof hflush f y ev = (y', o) -> Inv (core y').
+  Proof.
+    intros Hi. unfold step. cbv zeta. destruct ev as [dd| |op0].
+    - destruct (deliverable H (core y) && pp_present (pr (core y)) && parser_alive (pr (core y)) && negb (isnil dd)); [|intros [= <- <-]; exact Hi].
+      intros Hs.
+      destruct (poll H hnew hstep havail heof hflush f (mkSys H (parser_feed H hnew hstep havail heof hflush f (core y) dd) (pend y))) as [y1 o1] eqn:Ep.
+      eapply poll_F in Ep; [|cbn [core]; apply parser_feed_Inv; exact Hi]. eapply settle_F in Hs; [exact Hs|exact Ep].
+    - destruct (deliverable H (core y) && pp_present (pr (core y)) && parser_alive (pr (core y))); [|intros [= <- <-]; exact Hi].
+      intros Hp. eapply poll_F in Hp; [exact Hp|]. cbn [core]. apply connection_lost_F; exact Hi.
+    - destruct (pend y); [intros [= <- <-]; exact Hi|].
+      destruct (op_start H hnew hstep havail heof hflush f (core y) op0) as [s1 r] eqn:Eo.
+      pose proof (op_start_F _ _ _ _ _ Hi Eo) as J.
+      destruct r as [dd| |e].
+      + intros Hs. eapply settle_F in Hs; [exact Hs|exact J].
+      + destruct (settle H hnew hstep havail heof hflush f (mkSys H s1 (Some op0), ONone)) as [y1 o1] eqn:Es.
+        eapply settle_F in Es; [|exact J]. destruct o1; intros [= <- <-]; exact Es.
+      + intros Hs. eapply settle_F in Hs; [exact Hs|exact J].
+  Qed.
+
+  Lemma run_F f : forall evs (y y' : sys) os, Inv (core y) -> run H hnew hstep havail heof hflush f y evs = (y', os) -> Inv (core y').
+  Proof.
+    induction evs as [|ev evs IH]; intros y y' os Hi; cbn [run]; [intros [= <- <-]; exact Hi|].
+    destruct (step H hnew hstep havail heof hflush f y ev) as [y1 o] eqn:Es.
+    destruct (run H hnew hstep havail heof hflush f y1 evs) as [y2 os2] eqn:Er. intros [= <- <-].
+    eapply IH; [|exact Er]. eapply step_F; eauto.
+  Qed.
+
+  Lemma init_F c t len enc : 1 <= c_limit c -> Inv (core (init H hnew c t len enc)).
+  Proof.
+    intros Hl. unfold init, Inv, W, Wr, Fb, Ph, Pg, Pt, nonempty, shape. cbn. unfold dg_low, dg_lowc, dg_highc.
+    split; [repeat split; auto; try lia|].
+    intros _. repeat split; intros; try discriminate; try congruence; auto.
+  Qed.
+
+  (* ---- the two theorems ------------------------------------------------------------------------------------ *)
+  Theorem progress_all : forall f c t len enc evs (y : sys) os,
+    1 <= c_limit c ->
+    run H hnew hstep havail heof hflush f (init H hnew c t len enc) evs = (y, os) ->
+    rexn (re (core y)) = None -> connected (pr (core y)) = true -> buf (re (core y)) = [] ->
+    has_more (pr (core y)) = false /\ rpaused (pr (core y)) = false /\ tpaused (pr (core y)) = false.
+  Proof.
+    intros f c t len enc evs y os Hl Hr Hx Hc He.
+    destruct (run_F f evs _ _ _ (init_F c t len enc Hl) Hr) as (Hw & Hf). destruct (Hf Hx) as (Fbs & Phs & Pgs & Pts).
+    destruct Fbs as (F1 & F2 & _). unfold Ph, Pg, Pt, nonempty in *.
+    assert (R : rpaused (pr (core y)) = false). { destruct (rpaused (pr (core y))); [exfalso; apply Pgs; auto|reflexivity]. }
+    split; [|split; [exact R|]].
+    - destruct (has_more (pr (core y))); [exfalso; apply Phs; auto|reflexivity].
+    - destruct (tpaused (pr (core y))); [rewrite Pts in R; auto; discriminate|reflexivity].
+  Qed.
+
+  Theorem reaches_eof_all : forall f c t len enc evs (y : sys) os,
+    1 <= c_limit c ->
+    run H hnew hstep havail heof hflush f (init H hnew c t len enc) evs = (y, os) ->
+    connected (pr (core y)) = false -> buf (re (core y)) = [] ->
+    reof (re (core y)) = true \/ rexn (re (core y)) <> None.
+  Proof.
+    intros f c t len enc evs y os Hl Hr Hc He.
+    destruct (run_F f evs _ _ _ (init_F c t len enc Hl) Hr) as (Hw & Hf).
+    destruct (rexn (re (core y))) eqn:Hx; [right; discriminate|left].
+    destruct (Hf eq_refl) as (Fbs & Phs & Pgs & Pts). destruct Fbs as (F1 & F2 & F3 & F4 & F5 & F6 & F7).
+    destruct (parser_alive (pr (core y))) eqn:Ea; [|auto].
+    destruct (pp_present (pr (core y))) eqn:Ep; [|auto].
+    exfalso. destruct (F6 Hc eq_refl eq_refl) as (Hm & _). unfold Ph, nonempty in Phs. apply Phs; auto.
   Qed.
 End Progress.
